@@ -434,6 +434,14 @@ func ReplayMain(t *testing.T, path string) int {
 		step++
 		return true
 	}, x)
+	if mp := os.Getenv("VERIF_MEMPROFILE"); mp != "" {
+		// diagnosis only: where did the bytes of this replay come from
+		// (run with -test.memprofilerate=1)
+		if fh, err := os.Create(mp); err == nil {
+			pprof.Lookup("allocs").WriteTo(fh, 0) //nolint:errcheck
+			fh.Close()
+		}
+	}
 	res, _ := json.Marshal(map[string]any{"violations": viol})
 	fmt.Println("REPLAY-RESULT " + string(res))
 	if len(viol) > 0 {
